@@ -1002,6 +1002,8 @@ void BW_MidiSequencer::buildTimeLine(const std::vector<MidiEvent> &tempos,
     // Set the count of loops
     m_loop.loopsCount = m_loopCount;
     m_loop.loopsLeft = m_loopCount;
+    // The song begin is the loop start unless a (valid) loopStart marker follows
+    m_loop.caughtStart = (m_loopStartTime < 0.0);
 
     /********************************************************************************/
     // Find and set proper loop points
@@ -1247,7 +1249,7 @@ bool BW_MidiSequencer::processEvents(bool isSeek)
 
                 if(m_loop.caughtStart)
                 {
-                    if(m_interface->onloopStart) // Loop Start hook
+                    if(m_interface->onloopStart && m_loopEnabled) // Loop Start hook
                         m_interface->onloopStart(m_interface->onloopStart_userData);
 
                     caughLoopStart++;
@@ -1434,10 +1436,12 @@ bool BW_MidiSequencer::processEvents(bool isSeek)
             return true; // We have caugh end here!
         }
 
+        bool jumped = false;
         if(m_loop.temporaryBroken)
         {
             m_currentPosition = m_trackBeginPosition;
             m_loop.temporaryBroken = false;
+            jumped = true;
         }
         else if(m_loop.loopsCount < 0 || m_loop.loopsLeft >= 1)
         {
@@ -1447,7 +1451,13 @@ bool BW_MidiSequencer::processEvents(bool isSeek)
             m_currentPosition.wait = rowBeginPosition.wait;
             if(m_loop.loopsCount >= 1)
                 m_loop.loopsLeft--;
+            jumped = true;
         }
+
+        // Without a (valid) loopStart marker the loop starts where the song starts:
+        // the pass that begins now goes through the loop start again
+        if(jumped && m_loopStartTime < 0.0)
+            m_loop.caughtStart = true;
     }
 
     return true; // Has events in queue
@@ -2270,7 +2280,8 @@ void BW_MidiSequencer::rewind()
 
     m_loop.loopsCount = m_loopCount;
     m_loop.reset();
-    m_loop.caughtStart  = true;
+    // The song begin is the loop start unless a (valid) loopStart marker follows
+    m_loop.caughtStart  = (m_loopStartTime < 0.0);
     m_loop.temporaryBroken = false;
     m_time.reset();
 }
